@@ -49,6 +49,8 @@ func emit(lg *zerolog.Logger, kind string, t, i int) {
 	case "nested":
 		lg.Info().Int("t", t).Dict("d", zerolog.Dict().Int("i", i).Dict("dd", zerolog.Dict().Str("s", "v"))).
 			Array("a", zerolog.Arr().Int(t).Object(&obj{i}).Dict(zerolog.Dict().Int("q", t))).Object("o", &obj{t}).Msg("nested")
+	case "drop": // discarded by discardHook (loggers without it write it)
+		lg.Info().Int("t", t).Int("i", i).Msg("drop")
 	case "fields":
 		lg.Info().Fields(map[string]interface{}{"t": t, "e": fmt.Errorf("err%d", i), "o": &obj{t}}).Msg("fields")
 	default:
@@ -58,7 +60,7 @@ func emit(lg *zerolog.Logger, kind string, t, i int) {
 
 // scenario name: <logger>/<writer>/<thread kinds ;-separated, events ,-separated>
 //
-//	logger: shared | children | global | hooked | derived (children built by the goroutines themselves)
+//	logger: shared | children | global | hooked | discarding (a hook discards the "drop" events) | derived (children built by the goroutines themselves)
 //	writer: plain | sync | console
 type params struct {
 	logger, writer string
@@ -126,6 +128,15 @@ type inst struct {
 var expCache = map[string][]string{}
 var expMu sync.Mutex
 
+// discardHook discards the events whose message is "drop" (the hooks after it still run on the event).
+type discardHook struct{}
+
+func (discardHook) Run(e *zerolog.Event, l zerolog.Level, m string) {
+	if m == "drop" {
+		e.Discard()
+	}
+}
+
 // tagHook marks the events of one derived child.
 type tagHook struct{ t int }
 
@@ -154,6 +165,8 @@ func buildLoggers(p params, w io.Writer) (lgs []zerolog.Logger, derive func(i in
 			return root.With().Int("child", i).Logger()
 		case "hooked":
 			return root.Hook(addHook{}).With().Str("c", "ctx").Logger()
+		case "discarding":
+			return root.Hook(discardHook{}).Hook(addHook{}).With().Int("child", i).Logger()
 		case "derived":
 			return root.Hook(tagHook{i}).With().Int("child", i).Str("pad", strings.Repeat(string(rune('a'+i)), 20)).Logger().Level(zerolog.DebugLevel)
 		case "global":
@@ -323,6 +336,8 @@ func plans(tier string) []drv.Plan {
 	add("hooked/plain/tiny,tiny;nested", b2)
 	add("global/plain/tiny;tiny;tiny", b2)
 	add("derived/plain/tiny,tiny;tiny", b2)
+	add("discarding/plain/drop,tiny;tiny,drop", b2)
+	add("discarding/plain/drop;drop;nested", 3)
 	add("derived/plain/nested;tiny;tiny", 3)
 	add("shared/sync/tiny,tiny;big", b3)
 	add("shared/sync/tiny;tiny;tiny", b2)
